@@ -50,10 +50,22 @@ def generate(rng, tier) -> dict:
             sb = rng.choice([0, 0, rng.randint(0, max(0, min(g, n_eff) // 2))])
             ops.append({"op": "read_plan", "gulp": g, "start": st, "nsamps": ns, "skipback": sb})
         else:
-            ops.append({"op": rng.choice(["collapse", "bandpass"]), "gulp": rng.choice([3, nsblk, nsblk + 1, N, rng.randint(1, N)])})
+            k = rng.choice(["collapse", "bandpass", "collapse", "bandpass", "dedisperse", "read_chan", "compute_stats", "fold"])
+            o = {"op": k, "gulp": rng.choice([3, nsblk, nsblk + 1, N, rng.randint(1, N)])}
+            if k == "dedisperse":
+                o["dmfrac"] = rng.choice([0.0, 0.1, 0.3])
+            elif k == "read_chan":
+                o["ichan"] = rng.randrange(nchans)
+            elif k == "fold":
+                o.update({"nbins": rng.choice([2, 4, 8]), "nints": rng.choice([1, 2]), "nbands": rng.choice([1, 2]) if nchans >= 2 else 1,
+                          "pfac": rng.choice([1.0, 1.37, 2.5]), "dmfrac": rng.choice([0.0, 0.0, 0.1])})
+            ops.append(o)
     return {"nbits": nbits, "nsblk": nsblk, "nsub": nsub, "nchans": nchans, "pol": pol, "npol": npol,
             "ascending": rng.random() < 0.4, "scl": rng.random() < 0.6, "zero_off": rng.choice([0.0, 0.0, 2.0]),
-            "dseed": rng.randrange(1 << 30), "ops": ops, "earlier_same_path": rng.random() < 0.25, "gzip": rng.random() < 0.2}
+            "dseed": rng.randrange(1 << 30), "ops": ops, "earlier_same_path": rng.random() < 0.25, "gzip": rng.random() < 0.2,
+            # header cards written by other software: the SIGN of CHAN_BW (bit 0) / OBSBW (bit 1) does not follow the
+            # order of the DAT_FREQ table (a width stored as a positive number whatever the band sense)
+            "bw_cards": rng.choice([0, 0, 0, 1, 2, 3])}
 
 
 def fixup(sc):
@@ -112,7 +124,7 @@ def write_psrfits(path, sc):
     for k, v in dict(FITSTYPE="PSRFITS", OBS_MODE="SEARCH", TELESCOP="Parkes", ANT_X=-4554231.5, ANT_Y=2816759.1, ANT_Z=-3454036.3,
                      FRONTEND="SIM", NRCVR=1, FD_POLN="LIN", FD_HAND=1, FD_SANG=0.0, FD_XYPH=0.0, FD_MODE="FA", FA_REQ=0.0,
                      BACKEND="SIMBE", BE_PHASE=1, BE_DCC=0, BE_DELAY=0.0, TCYCLE=0.0, BECONFIG="none", OBSERVER="sim", PROJID="P000",
-                     OBSFREQ=float(freqs.mean()), OBSBW=foff * nchans, OBSNCHAN=nchans, SRC_NAME="J0000+0000", RA="00:00:00.0",
+                     OBSFREQ=float(freqs.mean()), OBSBW=foff * nchans * (-1 if int(sc.get("bw_cards") or 0) & 2 else 1), OBSNCHAN=nchans, SRC_NAME="J0000+0000", RA="00:00:00.0",
                      DEC="-00:30:00.0", STT_IMJD=58000, STT_SMJD=100, STT_OFFS=0.25).items():
         h[k] = v
     h["DATE-OBS"] = "2020-01-01T00:00:00"
@@ -130,7 +142,7 @@ def write_psrfits(path, sc):
             fits.Column(name="DAT_SCL", format=f"{nchans * npol}E", array=np.tile(scl, (nsub, 1))),
             fits.Column(name="DATA", format=f"{darr.shape[1]}B", dim=dim, array=darr)]
     tb = fits.BinTableHDU.from_columns(cols, name="SUBINT")
-    for k, v in dict(NPOL=npol, POL_TYPE=pol, TBIN=tsamp, NBITS=nbits, NCHAN=nchans, NSBLK=nsblk, CHAN_BW=foff, NSUBOFFS=0,
+    for k, v in dict(NPOL=npol, POL_TYPE=pol, TBIN=tsamp, NBITS=nbits, NCHAN=nchans, NSBLK=nsblk, CHAN_BW=foff * (-1 if int(sc.get("bw_cards") or 0) & 1 else 1), NSUBOFFS=0,
                      SIGNINT=0, ZERO_OFF=float(sc["zero_off"])).items():
         tb.header[k] = v
     with warnings.catch_warnings():
@@ -189,6 +201,8 @@ def execute(sc, ctx) -> None:
     ctx.sig += [sc["pol"], f"nbits{sc['nbits']}", "asc" if sc["ascending"] else "desc"]
     if sc["ascending"]:
         ctx.probe("ascending-band")
+    if sc.get("bw_cards"):
+        ctx.probe("bandwidth-card-sign-differs-from-the-frequency-table")
     if sc["nbits"] == 4:
         ctx.probe("4-bit")
     if sc["scl"]:
@@ -305,12 +319,47 @@ def execute(sc, ctx) -> None:
                 if twin is None:
                     spec = {"nbits": 32, "nchans": nchans, "nsamps": [N], "fch1": meta["fch1"], "foff": meta["foff"], "tsamp": meta["tsamp"]}
                     twin = write_twin(ctx.root, spec, W)
+                from sim import transforms as T
+
+                unit = float(T.ref_delays(nchans, 1.0, meta["fch1"], meta["foff"], meta["tsamp"]).max()) if nchans > 1 else 0.0
+                dm = round(op.get("dmfrac", 0.0) * (N / 4) / unit, 4) if unit > 0 else 0.0
+
+                def reduce(rd, _op=op, _dm=dm):
+                    kw = {"gulp": _op["gulp"], "quiet": True}
+                    if kind in ("collapse", "bandpass"):
+                        return np.asarray(getattr(rd, kind)(**kw).data)
+                    if kind == "dedisperse":
+                        return np.asarray(rd.dedisperse(_dm, **kw).data)
+                    if kind == "read_chan":
+                        return np.asarray(rd.read_chan(_op["ichan"], **kw).data)
+                    if kind == "compute_stats":
+                        rd.compute_stats(**kw)
+                        st = rd.chan_stats
+                        return np.concatenate([np.asarray(x, dtype=np.float64).ravel() for x in (st.mean, st.var, st.minima, st.maxima, st.skew)])
+                    cube = rd.fold(meta["tsamp"] * _op["nbins"] * _op["pfac"], _dm, nbins=_op["nbins"], nints=_op["nints"], nbands=min(_op["nbands"], nchans), **kw)
+                    return np.asarray(cube.data, dtype=np.float64).ravel()
+
+                twin_exc = None
                 try:
-                    a = np.asarray(getattr(reader, kind)(gulp=op["gulp"], quiet=True).data)
+                    b = reduce(FilReader(twin))
+                except Violation:
+                    raise
+                except Exception as e:  # noqa: BLE001 - the SIGPROC path decides whether the arguments are acceptable
+                    twin_exc = e
+                try:
+                    a = reduce(reader)
+                except Violation:
+                    raise
                 except Exception as e:  # noqa: BLE001
+                    if twin_exc is not None and type(e) is type(twin_exc):
+                        ctx.observations[f"{kind}-refused-on-both-paths:{type(e).__name__}"] += 1
+                        continue
                     raise Violation(f"C18/{kind}/raised", repr(e)[:300], info) from None
-                b = np.asarray(getattr(FilReader(twin), kind)(gulp=op["gulp"], quiet=True).data)
-                if a.shape != b.shape or not np.allclose(a, b, rtol=1e-5, atol=1e-4):
+                if twin_exc is not None:
+                    ctx.observations[f"{kind}-refused-on-the-sigproc-path-only:{type(twin_exc).__name__}"] += 1
+                    continue
+                ctx.probe("twin-compared:" + kind)
+                if a.shape != b.shape or not np.allclose(a, b, rtol=1e-5, atol=1e-4, equal_nan=True):
                     raise Violation(f"C18/{kind}/differs-from-sigproc-twin", f"{a[:4].tolist()} vs {b[:4].tolist()}", info)
                 ctx.probe("twin-compared")
                 ctx.log(kind, i, op["gulp"], zlib.crc32(np.ascontiguousarray(b).tobytes()))
